@@ -661,6 +661,8 @@ pub fn replay_state(prop: &str, j: &J) -> Result<Acc, String> {
         "C04" => c04_visit(&ctx, &mut acc),
         "C11" => c11_visit(&ctx, &mut acc),
         "C16" => c16_visit(&ctx, &mut acc),
+        "C20" => crate::props::c20::c20_visit(&ctx, &mut acc),
+        "C12" => crate::props::c12::roundtrip_visit(&ctx, &mut acc),
         _ => return Err(format!("no state replay for {}", prop)),
     }
     Ok(acc)
